@@ -32,4 +32,4 @@ json.dump(m,open(p,'w'),indent=1)
 PY
 }
 export -f one
-ls -d /verif/seeded/$glob | xargs -P $jobs -I{} bash -c 'one {}'
+ls -d /verif/seeded/$glob | grep -v "/_" | xargs -P $jobs -I{} bash -c 'one {}'
